@@ -502,7 +502,7 @@ Section Inner.
           else Ok (set_ch b (rev new_rev), Some c, SCons (index + 1) resume)   (* 1991-1992, 2012-2016 *)
         else
           let* (nc, blk, resume', skip') :=
-            if is InlineT c then                                           (* 1995-1997 *)
+            if is InlineT c && negb (running c) then                        (* 1995-1997 *)
               let* (nc, blk, rs) := inner c skip_stack in Ok (nc, blk, rs, SNil)
             else if negb (is_snil skip_stack) then Panic 2000
             else let* nc := bii c in Ok (nc, None, resume, skip_stack)     (* 2002 *)
